@@ -62,6 +62,69 @@ def pairdist(x):
     return np.linalg.norm(x[:, None, :] - x[None, :, :], axis=-1)
 
 
+def apply_op(probe, op):
+    import arim.geometry as g
+
+    if op[0] == "t":
+        probe.translate(op[1])
+    elif op[0] == "r":
+        probe.rotate(g.rotation_matrix_ypr(*op[1]), op[2])
+    elif op[0] == "flip":
+        probe.flip_probe_around_axis_Oz()
+    elif op[0] == "ref":
+        probe.set_reference_element(op[1])
+    elif op[0] == "toO":
+        probe.translate_to_point_O()
+    else:
+        probe.reset_position()
+
+
+def check_coordinate_containers(ctx):
+    """a probe described by a table of whole numbers (millimetres, counts of pitches) held as integers, or by single-precision
+    coordinates, is the same probe as the one whose table holds the same numbers as float64: after every motion both are in
+    the same place, with the same probe coordinate system and the same probe-frame coordinates"""
+    import arim
+
+    rng = ctx.rng
+    for it in range(12 * ctx.scale):
+        n = int(rng.integers(2, 7))
+        table = np.zeros((n, 3))
+        table[:, 0] = np.arange(n) * int(rng.integers(1, 4)) * (1 if it % 2 else -1)
+        if it % 3 == 0:
+            table[:, 1] = rng.integers(-2, 3, size=n)
+        kinds = [np.int64, np.int32, np.float32]
+        dt = kinds[it % 3]
+        ops = gen_ops(rng, n, int(rng.integers(3, 12)))
+        # at least one rotation about a centre that is not a lattice point
+        ops.insert(int(rng.integers(0, len(ops) + 1)), ("r", rng.uniform(-np.pi, np.pi, size=3), table.mean(axis=0) + np.array([0.5, 0.25, -0.75])))
+        try:
+            normals = np.tile([0.0, 0.0, 1.0], (n, 1))
+            pa = arim.Probe(table.astype(dt), 5e6, orientations=normals.copy())
+            pb = arim.Probe(table.astype(np.float64), 5e6, orientations=normals.copy())
+        except Exception as e:
+            ctx.violate(f"Probe refuses a location table held as {np.dtype(dt).name}: {type(e).__name__}", {"op": "probe_table", "dtype": np.dtype(dt).name}, {"kind": "container"})
+            continue
+        cj = {"op": "probe_table_container", "dtype": np.dtype(dt).name, "table": table.tolist(), "ops": []}
+        ctx.case(("container", it, np.dtype(dt).name), True)
+        ctx.count("probe_table:" + np.dtype(dt).name)
+        for op in ops:
+            cj["ops"].append(enc_op(op, None) if op[0] != "r" else "r=ypr" + str([float(v) for v in op[1]]) + "=" + str(None if op[2] is None else [float(v) for v in op[2]]))
+            try:
+                apply_op(pa, op)
+                apply_op(pb, op)
+            except Exception as e:
+                ctx.violate(f"{op[0]} raised {type(e).__name__} on a probe whose table is held as {np.dtype(dt).name}", cj, {"kind": "container"})
+                break
+            sa, sb = state_of(pa), state_of(pb)
+            scale = max(1.0, float(np.abs(sb[0]).max()))
+            tol = (1e-5 if dt is np.float32 else 1e-11) * scale
+            bad = [nm for nm, x, y in zip(("locations", "orientations", "pcs", "locations_pcs", "orientations_pcs"), sa, sb) if not np.all(np.abs(x - y) <= tol)]
+            if bad:
+                ctx.violate(f"after {op[0]}: the probe whose table is held as {np.dtype(dt).name} differs from the float64 probe in {bad} "
+                            f"(max {max(float(np.abs(x - y).max()) for x, y in zip(sa, sb)):.3g})", cj, {"kind": "container"})
+                break
+
+
 def run_history(ctx, rng, length):
     import arim
     import arim.geometry as g
@@ -141,6 +204,7 @@ def run(ctx):
     rng = ctx.rng
     ctx.rule = ("linear and matrix probes (1-6 x 1-3 elements, positive or negative pitch), histories of up to 30 operations among translate, rotate(ypr, centre or none), "
                 "flip, set_reference_element(first/last/mean/index incl. negative), translate_to_point_O, reset_position; distinct = distinct request; non-trivial = >= 2 elements and >= 3 operations")
+    check_coordinate_containers(ctx)
     n = 120 * ctx.scale
     runs = [run_history(ctx, rng, int(rng.integers(1, 31))) for _ in range(n)]
     answers = ctx.drive([r[0] for r in runs]) if ctx.lean.driver_ok and not ctx.oracle_only else [None] * n
